@@ -5,3 +5,42 @@ check("C03", "fault_enumeration",
       "observations and client replies must equal the one-chunk run and the object must stay usable after every timeout.",
       TRUST, "deterministic simulation, exhaustive + seeded fault enumeration over link plans, differential oracle",
       "DESIGN.md section 6 C03")
+check("C01", "exploration",
+      "Seeded and boundary-exhaustive input sweep through a simulated peer: every frame the client writes for every "
+      "send API is decoded by an independent codec (and by websockets' ServerProtocol), compared with the caller's "
+      "payload, the requested FIN/opcode, the minimal length rule and the single key draw observed at the randomness "
+      "seam; short writes are injected as an orthogonal fault. No schedule dimension: this is input/configuration "
+      "exploration observed at a simulated peer.",
+      TRUST + " websockets 17.1 as second opinion.", "deterministic simulation: seeded + boundary-exhaustive input sweep through a simulated peer with short-write injection",
+      "DESIGN.md section 6 C01")
+check("C02", "exploration",
+      "Frames built by the reference encoder (all header-legal first byte x MASK x length-class combinations enumerated, "
+      "seeded multi-frame streams) are read through the real receive path under seeded chunking/read caps; returned "
+      "(fin, opcode, payload) must equal the reference decoder's and the socket must have handed out exactly the bytes "
+      "of each frame.", TRUST, "deterministic simulation: enumerated + seeded frame streams through a simulated transport, reference-decoder oracle",
+      "DESIGN.md section 6 C02")
+check("C04", "exploration",
+      "Receiver-model oracle over seeded histories of fragmented messages with interleaved control frames, per-fragment "
+      "mode and validation on/off, under chunking, read caps and receive timeouts; all cuttings of a 6-byte message "
+      "enumerated.", TRUST, "deterministic simulation: seeded histories + enumerated cuttings, receiver-model oracle",
+      "DESIGN.md section 6 C04")
+check("C05", "exploration",
+      "Receiver-model oracle: legal prefix + probe frame. Enumerated: all 256 first bytes x 6 length classes x 3 receiver "
+      "states, all 65536 close codes (thorough), close-reason validity classes, all sequencing words up to length 4/5; "
+      "seeded illegal-class histories beyond.", TRUST,
+      "deterministic simulation: enumerated header/code/sequencing spaces through the simulated transport, receiver-model oracle",
+      "DESIGN.md section 6 C05")
+check("C06", "exploration",
+      "Class-generated well-/ill-formed payloads cut into fragments at arbitrary byte positions and delivered through the "
+      "simulated transport, validation on/off, text and close reasons; oracle = CPython strict decoder on the reassembled "
+      "payload; plus bounded-exhaustive agreement of the validator with the strict decoder (all strings <=2 / <=3 bytes). "
+      "Does NOT decide 'all byte strings via the automaton' - sampling and bounded exhaustion only.", TRUST,
+      "deterministic simulation: class-based seeded inputs x fragmentations through the simulated transport; bounded-exhaustive validator comparison",
+      "DESIGN.md section 6 C06")
+check("C07", "exploration",
+      "Event-order oracle on the simulator's global log: after the recv that delivered the last byte of each ping the "
+      "client's next transport operations must be sends forming exactly one pong with that payload, before any further "
+      "recv; seeded streams with pings before/between/inside fragmented messages, short writes during the pong; all "
+      "payload lengths 0..125 enumerated at three positions.", TRUST,
+      "deterministic simulation: seeded histories with short-write injection, global event-order oracle",
+      "DESIGN.md section 6 C07")
